@@ -348,7 +348,7 @@ def run_seq(acc, rnd, nops, cid):
             d = {}
             for tt, vv in m:
                 d[tagform(tt)] = vv if not isinstance(vv, list) else "g"
-            variant = rnd.choice(["same", "same", "framing", "value", "drop", "extra"])
+            variant = rnd.choice(["same", "same", "framing", "value", "drop", "extra", "alias", "drop+alias"])
             if variant == "framing":
                 for ft, fv in ((8, "FIX.4.4"), (9, "12"), (35, "D"), (10, "000")):
                     if m_find(m, str(ft)) < 0 and rnd.random() < 0.6:
@@ -361,6 +361,20 @@ def run_seq(acc, rnd, nops, cid):
             elif variant == "drop" and d:
                 d.pop(rnd.choice(list(d)))
                 exp_equal = False
+            elif variant in ("alias", "drop+alias"):
+                # the dict names one tag twice, as int and as str (same value): it still names the same SET of tags - or, with another
+                # tag dropped, a smaller one although it has as many keys as the message has tags
+                if len(d) < (2 if variant == "drop+alias" else 1):
+                    continue
+                keys_ = list(d)
+                if variant == "drop+alias":
+                    d.pop(keys_.pop(rnd.randrange(len(keys_))))
+                    exp_equal = False
+                k0 = rnd.choice(keys_)
+                alt = str(int(k0)) if not isinstance(k0, str) else int(k0)
+                if alt in d:
+                    continue
+                d[alt] = d[k0]
             elif variant == "extra":
                 free = [x for x in TAGS if m_find(m, x) < 0]
                 if not free:
